@@ -141,7 +141,7 @@ func (r *Rng) genIPv6() string {
 	n := r.Intn(10)
 	var ps []string
 	for i := 0; i < n; i++ {
-		ps = append(ps, r.Pick([]string{"0", "1", "f", "10", "ff", "100", "fff", "1000", "ffff", "0", "0", "0", "00", "0000", "FFFF", "12345", "g", "", "\uff11", "\uff41", "\u0661", "F\uff26"}))
+		ps = append(ps, r.Pick([]string{"0", "1", "f", "10", "ff", "100", "fff", "1000", "ffff", "0", "0", "0", "00", "0000", "FFFF", "12345", "g", "", "\uff11", "\uff41", "\u0661", "F\uff26", "00001", "00000", "0abcd", "000ff", "0FFFF", "0000000000000000", "10000", "fffff"}))
 	}
 	s := strings.Join(ps, ":")
 	if r.Chance(1, 2) && len(ps) > 1 {
